@@ -484,3 +484,169 @@ pub fn paths_in(e: &syn::Expr, self_ty: &str) -> Vec<String> {
     syn::visit::Visit::visit_expr(&mut v, e);
     v.0
 }
+
+// ---------------------------------------------------------------------------------------------------------
+// integer constants, range checks, assertions
+
+/// `const NAME: T = <int literal>;` anywhere in the file (module level, impl level, inside blocks; test modules skipped)
+pub fn const_int(f: &syn::File, name: &str) -> Option<u64> {
+    struct C<'a>(&'a str, Vec<u64>);
+    impl<'ast, 'a> syn::visit::Visit<'ast> for C<'a> {
+        fn visit_item_const(&mut self, c: &'ast syn::ItemConst) {
+            if c.ident == self.0 {
+                if let Some(n) = int_lit(&c.expr) {
+                    self.1.push(n);
+                }
+            }
+        }
+        fn visit_impl_item_const(&mut self, c: &'ast syn::ImplItemConst) {
+            if c.ident == self.0 {
+                if let Some(n) = int_lit(&c.expr) {
+                    self.1.push(n);
+                }
+            }
+        }
+        fn visit_item_mod(&mut self, m: &'ast syn::ItemMod) {
+            if !crate::inventory::is_cfg_test(&m.attrs) {
+                syn::visit::visit_item_mod(self, m);
+            }
+        }
+    }
+    let mut c = C(name, vec![]);
+    syn::visit::Visit::visit_file(&mut c, f);
+    if c.1.len() == 1 {
+        Some(c.1[0])
+    } else {
+        None
+    }
+}
+
+/// an integer literal or a named integer constant of the file
+pub fn int_value(f: &syn::File, e: &syn::Expr) -> Option<u64> {
+    int_lit(e).or_else(|| ident_of(strip_ref(e)).and_then(|id| const_int(f, &id)))
+}
+
+/// `lo <= subject <= hi` (both inclusive), however it is spelt
+pub struct RangeCheck {
+    pub subject: String,
+    pub lo: u64,
+    pub hi: u64,
+}
+
+/// `(A..=B).contains(&S)` | `(A..B).contains(&S)` | `S >= A && S <= B` (either order, `A <= S`, strict forms);
+/// A, B integer literals or named constants of the file; S is given as canonical text (borrows dropped)
+pub fn range_check(f: &syn::File, e: &syn::Expr) -> Option<RangeCheck> {
+    let e = strip(e);
+    if let syn::Expr::MethodCall(m) = e {
+        if m.method == "contains" && m.args.len() == 1 {
+            if let syn::Expr::Range(r) = strip(&m.receiver) {
+                let lo = int_value(f, r.start.as_ref()?)?;
+                let hi = int_value(f, r.end.as_ref()?)?;
+                let hi = match r.limits {
+                    syn::RangeLimits::Closed(_) => hi,
+                    syn::RangeLimits::HalfOpen(_) => hi.checked_sub(1)?,
+                };
+                return Some(RangeCheck { subject: canon(strip_ref(&m.args[0])), lo, hi });
+            }
+        }
+    }
+    if let syn::Expr::Binary(b) = e {
+        if matches!(b.op, syn::BinOp::And(_)) {
+            // each side: S op N or N op S → (subject, is_lower, bound)
+            let side = |x: &syn::Expr| -> Option<(String, bool, u64)> {
+                if let syn::Expr::Binary(c) = strip(x) {
+                    let (subj, n, flipped) = if let Some(n) = int_value(f, &c.right) {
+                        (canon(strip_ref(&c.left)), n, false)
+                    } else if let Some(n) = int_value(f, &c.left) {
+                        (canon(strip_ref(&c.right)), n, true)
+                    } else {
+                        return None;
+                    };
+                    // normalise to `S op n`
+                    let op = match (&c.op, flipped) {
+                        (syn::BinOp::Ge(_), false) | (syn::BinOp::Le(_), true) => ">=",
+                        (syn::BinOp::Gt(_), false) | (syn::BinOp::Lt(_), true) => ">",
+                        (syn::BinOp::Le(_), false) | (syn::BinOp::Ge(_), true) => "<=",
+                        (syn::BinOp::Lt(_), false) | (syn::BinOp::Gt(_), true) => "<",
+                        _ => return None,
+                    };
+                    return Some(match op {
+                        ">=" => (subj, true, n),
+                        ">" => (subj, true, n.checked_add(1)?),
+                        "<=" => (subj, false, n),
+                        _ => (subj, false, n.checked_sub(1)?),
+                    });
+                }
+                None
+            };
+            let (a, b2) = (side(&b.left)?, side(&b.right)?);
+            if a.0 == b2.0 && a.1 != b2.1 {
+                let (lo, hi) = if a.1 { (a.2, b2.2) } else { (b2.2, a.2) };
+                return Some(RangeCheck { subject: a.0, lo, hi });
+            }
+        }
+    }
+    None
+}
+
+/// the conditions of the `assert!`s a function executes at its top level, in order, with `let`s substituted and the
+/// function's parameters written p0, p1, ..; a statement `h(args);` / `Self::h(args);` / `<ty>::h(args);` calling a private
+/// function of the file contributes that function's assertions (its parameters replaced by the arguments).
+/// The optional message arguments of `assert!` are dropped.
+pub fn asserts_of(file: &syn::File, ty: Option<&str>, sig: &syn::Signature, block: &syn::Block) -> Vec<syn::Expr> {
+    fn go(file: &syn::File, ty: Option<&str>, env: &mut Env, block: &syn::Block, depth: usize, out: &mut Vec<syn::Expr>) {
+        for st in &block.stmts {
+            match st {
+                syn::Stmt::Local(l) => {
+                    if let Some((nm, false, init)) = plain_let(l) {
+                        env.bind(&nm, init);
+                    }
+                }
+                syn::Stmt::Macro(m) if m.mac.path.is_ident("assert") => {
+                    let parser = syn::punctuated::Punctuated::<syn::Expr, syn::Token![,]>::parse_terminated;
+                    if let Ok(args) = m.mac.parse_body_with(parser) {
+                        if let Some(c) = args.first() {
+                            out.push(env.resolve(c));
+                        }
+                    }
+                }
+                syn::Stmt::Expr(e, Some(_)) if depth > 0 => {
+                    if let syn::Expr::Call(c) = strip(e) {
+                        if let Some(segs) = path_segments(&c.func) {
+                            let ok_prefix = match segs.len() {
+                                1 => true,
+                                2 => segs[0] == "Self" || Some(segs[0].as_str()) == ty,
+                                _ => false,
+                            };
+                            if !ok_prefix {
+                                continue;
+                            }
+                            let name = segs.last().unwrap().clone();
+                            let callee: Option<(&syn::Signature, &syn::Block, &syn::Visibility)> = free_fn(file, &name)
+                                .map(|f| (&f.sig, &*f.block, &f.vis))
+                                .or_else(|| ty.and_then(|t| impl_fn(file, t, &name)).map(|f| (&f.sig, &f.block, &f.vis)));
+                            if let Some((sig, blk, vis)) = callee {
+                                let params = param_names(sig);
+                                if matches!(vis, syn::Visibility::Inherited) && params.len() == c.args.len() && params.len() == sig.inputs.len() {
+                                    let mut inner = Env::default();
+                                    for (p, a) in params.iter().zip(c.args.iter()) {
+                                        inner.map.insert(p.clone(), env.resolve(strip_ref(a)));
+                                    }
+                                    go(file, ty, &mut inner, blk, depth - 1, out);
+                                }
+                            }
+                        }
+                    }
+                }
+                _ => {}
+            }
+        }
+    }
+    let mut env = Env::default();
+    for (k, p) in param_names(sig).iter().enumerate() {
+        env.rename(p, &format!("p{k}"));
+    }
+    let mut out = Vec::new();
+    go(file, ty, &mut env, block, 3, &mut out);
+    out
+}
